@@ -11,7 +11,7 @@
  *    io_shim_disarm() returns the number of script entries consumed (bit 30 set when the script ran out).
  *
  * 2. STORM mode (C15 tool level): IO_SHIM_STORM=<seed>:<permille>.  Every read/write/pread/pwrite on a
- *    descriptor > 2 is, with the given probability, interrupted (EINTR) or shortened to a random
+ *    descriptor other than stderr (stdin and stdout carry data in these tools) is, with the given probability, interrupted (EINTR) or shortened to a random
  *    positive length.  Transient conditions only; never an error.
  *
  * 3. TRACE mode (C09): IO_SHIM_TRACK=<path> IO_SHIM_LOG=<file> [IO_SHIM_SNAPDIR=<dir>].  Every
@@ -81,9 +81,20 @@ static int storm_on;
 static uint64_t storm_seed, storm_ctr;
 static unsigned storm_permille;
 
+/* ---- first-read mode: IO_SHIM_FIRST_READ=<n> limits the FIRST read() on every descriptor (stderr excepted) to n bytes:
+   the boundary "the first transfer is shorter than what the caller wants at once" (a pipe whose writer has sent little so far) */
+static long first_read_n;
+static unsigned char first_read_done[4096];
+static size_t first_read_count(int fd, size_t count) {
+  if (first_read_n <= 0 || fd < 0 || fd == 2 || fd >= (int)sizeof first_read_done || count == 0) return count;
+  if (__sync_lock_test_and_set(&first_read_done[fd], 1)) return count;
+  return (size_t)first_read_n < count ? (size_t)first_read_n : count;
+}
+
 /* ---- fail mode ---- */
 static char fail_call[16];
 static long fail_k, fail_ctr;
+static int fail_tracked_only;   /* IO_SHIM_FAIL_TRACKED=1: count only fsync/msync calls on the tracked file */
 static int fail_errno;
 static int fail_now(const char *call, int fd) {
   if (!fail_call[0] || (fd >= 0 && fd <= 2) || strcmp(call, fail_call)) return 0;
@@ -134,6 +145,8 @@ static void init(void) {
     storm_permille = c ? (unsigned)atoi(c + 1) : 200;
     storm_on = 1;
   }
+  s = getenv("IO_SHIM_FIRST_READ");
+  if (s) first_read_n = atol(s);
   s = getenv("IO_SHIM_FAIL");
   if (s) {
     const char *c1 = strchr(s, ':');
@@ -144,6 +157,7 @@ static void init(void) {
       fail_errno = c2 ? atoi(c2 + 1) : EIO;
     }
   }
+  fail_tracked_only = getenv("IO_SHIM_FAIL_TRACKED") != NULL;
   track_path = getenv("IO_SHIM_TRACK");
   snap_dir = getenv("IO_SHIM_SNAPDIR");
   const char *lp = getenv("IO_SHIM_LOG");
@@ -215,7 +229,7 @@ static uint64_t mix(uint64_t z) {
 
 /* storm: 0 = interrupt now, otherwise the count to use */
 static size_t storm_count(int fd, size_t count) {
-  if (!storm_on || fd <= 2 || count == 0) return count;
+  if (!storm_on || fd == 2 || fd < 0 || count == 0) return count;
   uint64_t r = mix(storm_seed + __sync_fetch_and_add(&storm_ctr, 1) * 0x9E3779B97F4A7C15ULL);
   if (r % 1000 >= storm_permille) return count;
   r = mix(r);
@@ -333,6 +347,7 @@ ssize_t read(int fd, void *buf, size_t count) {
     return tally(real_read(fd, buf, n));
   }
   if (fail_now("read", fd)) return -1;
+  count = first_read_count(fd, count);
   size_t c = storm_count(fd, count);
   if (count && !c) { errno = EINTR; return -1; }
   return real_read(fd, buf, c);
@@ -396,7 +411,12 @@ int fsync(int fd) {
   init();
   int ret;
   if (single(fd, &ret)) return ret;
-  if (fail_now("fsync", fd)) return -1;
+  if ((!fail_tracked_only || (fd == track_fd && fd >= 0)) && fail_now("fsync", fd)) {
+    int e = errno;
+    if (fd == track_fd && fd >= 0) logcall("fsync fail=%d", e);   /* a failed sync forces nothing to stable storage */
+    errno = e;
+    return -1;
+  }
   if (fd == track_fd && fd >= 0) logcall("fsync");
   return real_fsync(fd);
 }
@@ -445,8 +465,13 @@ int munmap(void *addr, size_t len) {
 
 int msync(void *addr, size_t len, int flags) {
   init();
-  if (fail_now("msync", -1)) return -1;
   int i = find_map(addr);
+  if ((!fail_tracked_only || i >= 0) && fail_now("msync", -1)) {
+    int e = errno;
+    if (i >= 0) logcall("msync off=%lld len=%zu fail=%d", (long long)(maps[i].off + ((char *)addr - maps[i].addr)), len, e);
+    errno = e;
+    return -1;
+  }
   if (i >= 0) logcall("msync off=%lld len=%zu", (long long)(maps[i].off + ((char *)addr - maps[i].addr)), len);
   return real_msync(addr, len, flags);
 }
@@ -458,5 +483,6 @@ int close(int fd) {
     track_fd = -1;
   }
   if (fd == armed_fd) armed_fd = -1;
+  if (fd >= 0 && fd < (int)sizeof first_read_done) first_read_done[fd] = 0;
   return real_close(fd);
 }
